@@ -95,8 +95,9 @@ def custom_configs(tier):
 
 # ------------------------------------------------------------------ boxes
 BOX = {
-    "quick": {"N": (1, 4), "maxdeg": {1: 2, 2: 2, 3: 1}, "leaf_cap": 700},
-    "thorough": {"N": (1, 5), "maxdeg": {1: 3, 2: 2, 3: 2}, "leaf_cap": 60000},
+    # per number of topologies/orbit columns t: (max N, max entry)
+    "quick": {"shape": {1: (4, 2), 2: (4, 2), 3: (4, 1)}, "leaf_cap": 700},
+    "thorough": {"shape": {1: (5, 3), 2: (4, 2), 3: (4, 1)}, "extra": {2: (5, 1), 3: (3, 2)}, "leaf_cap": 5000},
 }
 
 
@@ -128,13 +129,20 @@ def valid_for_custom(jds, sizes, indices):
 
 def jds_box(tier, t, sizes, indices=None):
     box = BOX[tier]
-    lo, hi = box["N"]
-    md = box["maxdeg"].get(t, 1)
-    for N in range(lo, hi + 1):
-        for jds in enumr.joint_degree_sequences(N, t, md, sizes):
-            if indices is not None and not valid_for_custom(jds, sizes, indices):
-                continue
-            yield jds
+    seen = set()
+    shapes = [box["shape"].get(t, (3, 1))]
+    if t in box.get("extra", {}):
+        shapes.append(box["extra"][t])
+    for maxN, md in shapes:
+        for N in range(1, maxN + 1):
+            for jds in enumr.joint_degree_sequences(N, t, md, sizes):
+                if indices is not None and not valid_for_custom(jds, sizes, indices):
+                    continue
+                key = tuple(jds)
+                if key in seen:
+                    continue
+                seen.add(key)
+                yield jds
 
 
 def all_instances(tier, kinds=("fast", "custom")):
